@@ -690,7 +690,7 @@ func c09(c *Ctx) {
 		}
 		c09Explicit(c, ds, [][2]string{{"0", "ab"}, {"0", "a"}, {"0", "c"}})
 	}
-	n := c.N(260, 2600)
+	n := c.N(600, 6000)
 	budget := c.N(250, 3000) // enumerated strings per rule set
 	emitted := 0
 	for attempt := 0; emitted < n && attempt < 40*n; attempt++ {
